@@ -101,6 +101,8 @@ def verify_contract(reg: Registry, c: Contract, cfg: Config) -> FunctionReport:
         env.vars.update(args)
         for r in c.requires:
             path.assume(truthy(it.eval_spec(r, env)))
+        for gname, gcl in c.ghost_init.items():
+            it.ghost[gname] = it.eval_spec(gcl, env)
         olds = it.capture_olds(list(c.ensures.values()) + list(c.raises_ensures.values()), env)
         # known-finding regions (DESIGN 1.9): evaluated on the PRE-state; the obligation must hold outside them
         regions = {}
@@ -175,6 +177,9 @@ def verify_contract(reg: Registry, c: Contract, cfg: Config) -> FunctionReport:
     except OutOfSubset as e:
         rep.status = "undecided"
         rep.reason = f"out of subset: {e}"
+        import os
+        if os.environ.get("PYVC_DEBUG"):
+            rep.reason += "\n" + traceback.format_exc()[-2500:]
         rep.wall_s = time.time() - t0
         return rep
     except RecursionError:
